@@ -9,6 +9,10 @@ tie:   generated histories of commands by 2-3 clients, delivery forced after eve
        pumped until its queue is empty), virtual-time advances across TTLs, drops of the invalidation connection and
        reconnects; compared per command: result == model; and the property itself: every read (get, get_many, exists,
        scan, get_match) == what the server holds at that moment.
+       Outages have an explicit reconnect schedule (harness/cshist.py: gen_outage_history): drop, r refused connect attempts
+       each `_RECONNECT_WAIT` of virtual time after the previous event (the code's own sleep on the virtual loop), commands -
+       reads of the disconnected client, changes by the others - placed in every window, the last one included, reconnect,
+       reads.
 """
 from __future__ import annotations
 
@@ -29,13 +33,17 @@ TRUSTED = [
     "(CLIENT TRACKING ... BCAST PREFIX with REDIRECT: every modification, expiry and flush is announced to every tracking client, the "
     "writer included); expiries are announced the moment time passes the deadline (idealised active expiry); no server is reachable here",
     "hand-written model Model/ClientSide.lean of client_side.py, tied to the code by this run's correspondence",
-    "harness: virtual clock, listeners parked on an event instead of the 0.1 s poll, delivery forced after every command, canonicalisation",
+    "harness: virtual clock, listeners parked on an event instead of the 0.1 s poll, delivery forced after every command, canonicalisation; "
+    "a connect attempt of a dropped client hangs at the stub until the history refuses or accepts it (the 10 s reconnect wait itself is the "
+    "code's own asyncio.sleep on the virtual loop)",
 ]
 PARTIAL = (
     "Decided relative to models of redis-py and of the server (tracking included), neither validated against the real thing. Quiescent points "
     "only (delivery completed between commands): interleavings of a command with in-flight announcements are not explored. Not exhibited: "
     "late expiry announcements of a real server, get_many with repeated keys, get on a key locked with a raw token, get_size, more than one SCAN page, the local copy's capacity, "
-    "server down (C19), more than 3 clients. get_expire's answer is compared with the model only (the code lets it differ from the server's)."
+    "server down (C19), more than 3 clients. get_expire's answer is compared with the model only (the code lets it differ from the server's). "
+    "Outages: a connect attempt is refused or accepted as a whole (no failure between CLIENT TRACKING and SUBSCRIBE), one client in an outage at a "
+    "time in the outage histories (the random histories drop several); the local copy is observed through reads only."
 )
 KNOWN_SIGS = {
     "D28": "D28:negative-int-not-read-back",
@@ -113,18 +121,73 @@ def judge(steps) -> list[dict]:
     return out
 
 
+ALLKEYS = ch.KEYS + ["k:zz"] + ch.LOCKS
+
+
+def keys_read(op) -> list[str]:
+    """keys whose server content a read fetches (and, for a disconnected client, writes into its local copy)"""
+    if op[0] in ("get", "exists"):
+        return [op[2]]
+    if op[0] == "getmany":
+        return list(op[2])
+    if op[0] == "getmatch":
+        return list(ALLKEYS)
+    return []
+
+
+def keys_changed(op) -> list[str]:
+    if op[0] in ("set", "incr", "delete", "expire", "setlock", "unlock"):
+        return [op[2]]
+    if op[0] == "setmany":
+        return [kv[0] for kv in op[3]]
+    if op[0] == "delmany":
+        return list(op[2])
+    if op[0] in ("clear", "delmatch"):
+        return list(ALLKEYS)
+    return []
+
+
 def stats_of(steps) -> set[str]:
     st = set()
     dropped = set()
     last_writer: dict[str, int] = {}
+    outage_reads: dict[int, set] = {}       # disconnected client -> keys it read since the drop / the last refused attempt
+    outage_stale: dict[int, set] = {}       # …of which somebody else changed afterwards (the local copy is now wrong)
+    watch: dict[int, set] = {}              # after the reconnect: keys whose outage-time copy would be stale
+    refusals: dict[int, int] = {}
     for i, s in enumerate(steps):
         op = s["op"]
         if op[0] == "drop":
             dropped.add(op[1])
             st.add("drop")
+            outage_reads[op[1]], outage_stale[op[1]], refusals[op[1]] = set(), set(), 0
+        if op[0] == "refuse":
+            st.add("refused_connect_attempt")
+            if outage_reads.get(op[1]):
+                st.add("refusal_clears_outage_reads")
+            outage_reads[op[1]], outage_stale[op[1]] = set(), set()
+            refusals[op[1]] = refusals.get(op[1], 0) + 1
         if op[0] == "reconnect":
+            if op[1] in dropped:
+                if outage_reads.get(op[1]):
+                    st.add("reconnect_after_outage_reads")
+                if outage_stale.get(op[1]):
+                    st.add("reconnect_with_stale_outage_reads")
+                    if refusals.get(op[1]):
+                        st.add("reconnect_with_stale_outage_reads_after_refusals")
+                watch[op[1]] = set(outage_stale.get(op[1], ()))
             dropped.discard(op[1])
             st.add("reconnect")
+        if len(op) > 1 and op[0] != "adv":
+            c = op[1]
+            if c in dropped:
+                outage_reads[c].update(keys_read(op))
+            for d in dropped:
+                if d != c:
+                    outage_stale[d].update(set(keys_changed(op)) & outage_reads[d])
+            if c not in dropped and c in watch and set(keys_read(op)) & watch[c] and op[0] != "getmatch":
+                st.add("read_after_reconnect_of_key_gone_stale_in_outage")
+                watch[c] -= set(keys_read(op))
         if op[0] in ("getmatch", "scan") and (s["server"] or "")[3:]:
             st.add("pattern_read_nonempty")
         if op[0] == "getexpire" and s["impl"].startswith("n=") and int(s["impl"][2:]) > 0:
@@ -242,7 +305,8 @@ class Ctx:
 
 def replay_dict(n, ops, steps, p, origin):
     return {"clients": n, "ops": ops, "origin": origin, "first_problem_step": p["i"], "kind": p["kind"],
-            "trace": [{"line": s["line"], "impl": s["impl"], "server": s["server"], "model": s["model"], "detail": s["detail"]} for s in steps],
+            "trace": [dict({"line": s["line"], "impl": s["impl"], "server": s["server"], "model": s["model"], "detail": s["detail"]},
+                           **({"model_local_copy_of_clients_in_outage": s["model_local"]} if "model_local" in s else {})) for s in steps],
             "replay_cmd": "./check C20 --replay <this file>"}
 
 
@@ -264,11 +328,20 @@ def run(chk: Check) -> int:
             if probs:
                 ctx.handle(n, ops, steps, probs, "corpus:" + name)
         total = chk.budget(500, 14000)
+        noutage = 0
+        necho = 0
         for i in range(total):
             if ctx.found >= 3:
                 break
             n = 2 if i % 3 else 3
-            ops = ch.gen_history(chk.rng, n, 30 if i % 4 else 10, with_drops=(i % 5 != 0))
+            if i % 4 == 2:
+                ops = ch.gen_outage_history(chk.rng, n, maxpre=(6 if i % 8 == 2 else 0))
+                noutage += 1
+            elif i % 8 == 4:
+                ops = ch.gen_echo_history(chk.rng, n, necho)
+                necho += 1
+            else:
+                ops = ch.gen_history(chk.rng, n, 30 if i % 4 else 10, with_drops=(i % 5 != 0))
             steps, probs = ctx.run(n, ops)
             ctx.account(n, ops, steps)
             if probs:
@@ -284,8 +357,19 @@ def run(chk: Check) -> int:
                     "VERIF_SEED (reads, pattern reads (scan, get_match), get_expire, writes, pipelined writes, conditional writes followed by a "
                     "read, increments with and without a TTL, deletes, pattern deletes, re-timing, flush, locks, time advances of 0..5 s, "
                     "drops and reconnects of the invalidation connection); every connected listener is pumped "
-                    "until its queue is empty after every command; a case is non-trivial iff it reached an interesting state "
+                    "until its queue is empty after every command; every fourth history is an OUTAGE history with an explicit reconnect "
+                    "schedule: warm-up, drop of one client, 0..3 refused connect attempts each at least _RECONNECT_WAIT (80 ticks of "
+                    "virtual time, the code's own sleep) after the previous event, in every window - always in the last - reads of the "
+                    "disconnected client (get / get_many / exists / get_match, hits and misses), changes of those keys by other "
+                    "clients (overwrite, create, delete, incr, expire 0, pipeline, flush, pattern delete), more reads, then the "
+                    "accepted attempt, reads, another change, reads; a case is non-trivial iff it reached an interesting state "
                     "(interesting_states_cases); distinct = distinct (clients, ops)",
+            "outage_histories": noutage,
+            "echo_motif_histories": necho,
+            "echo_motif_rule": "every eighth history consists of 4 motifs `client a gets into a state about a key (knows it absent / has it cached / "
+                               "knows nothing) -> a issues one of 11 commands on it (expire short/long, expire 0, get_expire, set nx/xx, incr with/without ttl, delete, "
+                               "delete_many, set_many) -> another client changes the key 0..10 s later (inside / outside the 5 s life of an "
+                               "echo mark) -> a reads`; the 33 (state, command) pairs are swept round-robin, so each is exercised several times per run",
             "samples": ctx.samples,
             "corpus_cases": ncorpus,
             "op_histogram": ctx.op_hist,
@@ -309,7 +393,8 @@ def replay(chk: Check, path: str) -> int:
     try:
         steps, probs = ctx.run(c["clients"], c["ops"])
         for s in steps:
-            print(f"{s['line'][:50]:50s} impl={s['impl'][:40]:40s} server={str(s['server'])[:40]:40s} model={s['model'][:40]}")
+            print(f"{s['line'][:50]:50s} impl={s['impl'][:40]:40s} server={str(s['server'])[:40]:40s} model={s['model'][:40]}"
+                  + ("   model-local " + " ".join(f"c{i}:{v}" for i, v in s["model_local"].items()) if "model_local" in s else ""))
         probs = [p for p in probs if not (p["sig"] and any(f.get("status") == "known" and f.get("signature") == p["sig"] for f in chk.known))]
         if not probs:
             print("replay: no disagreement")
